@@ -186,6 +186,7 @@ class Interp:
         self.overrides: dict = {}  # name -> _PyCall / value: stubs for callees outside the interpreted modules
         self.obj_classes: dict[str, str] = {}  # class name -> module name, for sample objects of non-LNodes classes
         self._eq_depth = 0
+        self.fstack: list = []  # functions being interpreted (innermost last): `super()` needs the class that defines the running method
         self.ctx: list = []  # module context of the function being interpreted (name resolution follows its imports)
         self.modconsts: dict = {}  # module-level literal containers, one object per interpreter
         self.prec: dict[str, int] = {}  # PRECEDENCE table, when a rule needs the numbers
@@ -371,9 +372,11 @@ class Interp:
     def call_f(self, f, args: list, kwargs=None):
         """Call a model.Func in the context of its own module."""
         self.ctx.append(f.module)
+        self.fstack.append(f)
         try:
             return self.call_func(f.node, args, kwargs)
         finally:
+            self.fstack.pop()
             self.ctx.pop()
 
     def call_func(self, fnode: ast.FunctionDef, args: list, kwargs=None, base_env=None):
@@ -962,6 +965,16 @@ class Interp:
             if isinstance(base, Rat) and e.attr == "_ufl_is_literal_":
                 # a symbolic scalar stands for a UFL literal exactly when it has no indeterminate but the imaginary unit
                 return all(v == IMAG for p_ in (base.num, base.den) for mono in p_ for v, _k in mono)
+            if isinstance(base, _Super):
+                # the next definition of the method after the defining class, along the bases (nearest first)
+                chain = (self.classes[base.cls].bases if base.cls in self.classes else []) + list(self.extra_bases.get(base.cls, ()))
+                for c_ in chain:
+                    mm_ = self.mod.funcs.get(f"{c_}.{e.attr}") if c_ not in self.obj_classes else self.repo.mod(self.obj_classes[c_]).funcs.get(f"{c_}.{e.attr}")
+                    if mm_ is not None:
+                        return _Bound(base.obj, mm_)
+                if e.attr == "__init__":
+                    return _PyCall(lambda *a, **k: None)  # object.__init__
+                raise AnalysisError(f"absint: super().{e.attr} not found above {base.cls}")
             if isinstance(base, _Cls) and e.attr == "__name__":
                 return base.name
             if e.attr in ("__name__", "__qualname__") and hasattr(base, "node") and hasattr(base, "module") and isinstance(base.node, (ast.FunctionDef, ast.AsyncFunctionDef)):
@@ -1225,6 +1238,12 @@ class Interp:
                 raise
             except (TypeError, ValueError, KeyError, IndexError, ZeroDivisionError, AttributeError) as ex:
                 raise Raised(f"{type(ex).__name__}: {str(ex)[:60]}")
+        if fn == "super" and not vals:
+            cur = self.fstack[-1] if self.fstack else None
+            qn = getattr(cur, "qualname", "") or ""
+            if "." not in qn or "self" not in env:
+                raise AnalysisError("absint: super() outside a method")
+            return _Super(qn.rsplit(".", 1)[0], env["self"])
         if fn == "issubclass" and len(vals) == 2:
             a_, b_ = vals
             bs_ = b_ if isinstance(b_, tuple) else (b_,)
@@ -1702,6 +1721,12 @@ def _local_names(fnode) -> frozenset:
     res_ = frozenset(out - outer)
     _LOCALS_CACHE[k] = (fnode, res_)
     return res_
+
+
+class _Super:
+    def __init__(self, cls, obj):
+        self.cls = cls
+        self.obj = obj
 
 
 class _Bound:
